@@ -540,7 +540,8 @@ def chain_tree(depth, hooks):
     return node, argv
 
 
-ALIAS_POOL = ["run r", "build b bld", "test", "get g", "put", "ls list l", "rm del", "cfg"]
+ALIAS_POOL = ["run r", "build b bld", "test", "get g", "put", "ls list l", "rm del", "cfg",
+              "show --show -s"]      # an alias may be spelled like an option: it still names the sub-command
 
 
 def gen_tree(rng, depth, fanout, with_specs=True, hooks=True):
